@@ -405,6 +405,37 @@ CORPUS = [
                                     {"k": "calc", "name": "", "pos": [4, 5, 6]}],
      "ops": [{"op": "build", "roots": [7], "via": "model"}, {"op": "deepcopy", "m": 0}, {"op": "setval", "m": 1},
              {"op": "mutate", "target": {"m": 0, "var": "?any"}, "mut": "name", "arg": None}]},
+    # seeded C15-1: a node of a live model handed to the value_node / dist_node setter of an outside variable
+    {"tag": "corpus.foreign", "objs": [{"k": "value", "name": "a", "val": 1}, {"k": "calc", "name": "b", "pos": [0]},
+                                       {"k": "dist", "name": "", "pos": [0]},
+                                       {"k": "var", "name": "y", "value": {"const": 2}, "dist": 2, "role": "obs"},
+                                       {"k": "calc", "name": "c", "pos": [1, 3]},
+                                       {"k": "var", "name": "outsider", "value": {"const": 0}, "dist": None},
+                                       {"k": "calc", "name": "outcalc", "pos": []}],
+     "ops": [{"op": "build", "roots": [4]},
+             {"op": "mutate", "target": 5, "mut": "value_node", "arg": {"ref": {"m": 0, "node": "b"}}},
+             {"op": "mutate", "target": 5, "mut": "value_node", "arg": {"ref": {"m": 0, "node": "a"}}},
+             {"op": "mutate", "target": 5, "mut": "dist_node", "arg": {"ref": {"m": 0, "node": "y_log_prob"}}},
+             {"op": "mutate", "target": 6, "mut": "set_inputs", "arg": {"pos": [{"m": 0, "node": "b"}], "kw": []}},
+             {"op": "mutate", "target": 6, "mut": "add_inputs", "arg": {"pos": [], "kw": [["z", {"m": 0, "node": "a"}]]}},
+             {"op": "setval", "m": 0}, {"op": "build", "roots": [6]}, {"op": "setval", "m": 0}]},
+    # seeded C15-2: build_model(copy=True), then the same builder again (copy=True and copy=False)
+    {"tag": "corpus.reuse", "objs": [{"k": "var", "name": "mu", "value": {"const": 1}, "dist": None, "role": "param"},
+                                     {"k": "dist", "name": "", "pos": [0]},
+                                     {"k": "var", "name": "y", "value": {"const": 4}, "dist": 1, "role": "obs"},
+                                     {"k": "calc", "name": "", "pos": [0, 2], "seed": True}],
+     "ops": [{"op": "build", "roots": [2, 3], "via": "gb", "copy": True},
+             {"op": "build", "roots": [2, 3], "reuse": 0, "copy": True},
+             {"op": "build", "roots": [2, 3], "reuse": 0, "copy": False},
+             {"op": "setval", "m": 0}, {"op": "setval", "m": 1}, {"op": "setval", "m": 2}]},
+    # seeded C15-3: copy=True build from the variables of a LIVE model, then assignments to the live model
+    {"tag": "corpus.livecopy", "objs": [{"k": "var", "name": "mu", "value": {"const": 1}, "dist": None, "role": "param"},
+                                        {"k": "calc", "name": "", "pos": [0]},
+                                        {"k": "var", "name": "sigma", "value": 1, "dist": None},
+                                        {"k": "dist", "name": "", "pos": [0, 2]},
+                                        {"k": "var", "name": "y", "value": {"const": 4}, "dist": 3, "role": "obs"}],
+     "ops": [{"op": "build", "roots": [4]}, {"op": "build", "roots": [4], "via": "gb", "copy": True},
+             {"op": "setval", "m": 0}, {"op": "setval", "m": 1}, {"op": "pop", "m": 0}, {"op": "build", "roots": {"from": 4}}]},
     # a full statistical model with dists, roles, groups; every round trip
     {"tag": "corpus.full", "objs": [{"k": "var", "name": "mu", "value": {"const": 1}, "dist": None, "role": "param"},
                                     {"k": "dist", "name": "", "pos": [0]},
@@ -534,7 +565,48 @@ def gen_prog(rnd, style, size):
     b0 = len(ops)
     ops.append({"op": "build", "roots": roots, "via": via, "copy": style == "copy" and rnd.random() < 0.6})
     # continuation: assumes the first build succeeded; operations on missing results are skipped by the runner
-    script = rnd.choice(["roundtrip", "mutators", "second", "copies", "mixed"]) if style not in ("cycle", "dup") else rnd.choice(["second", "mutators"])
+    script = rnd.choice(["roundtrip", "mutators", "second", "copies", "mixed", "foreign", "livecopy", "reuse"]) \
+        if style not in ("cycle", "dup") else rnd.choice(["second", "mutators"])
+    if style in ("foreign", "livecopy", "reuse"):
+        script = style
+    if script == "foreign":
+        o1 = len(objs)
+        objs.append({"k": "var", "name": "outsider", "value": {"const": 0}, "dist": None})
+        objs.append({"k": "calc", "name": "outcalc", "pos": []})
+        o2 = o1 + 1
+        ops.append({"op": "mutate", "target": o1, "mut": "value_node", "arg": {"ref": {"m": b0, "node": "?novar"}}})
+        ops.append({"op": "mutate", "target": o1, "mut": "dist_node", "arg": {"ref": {"m": b0, "node": "?dist"}}})
+        ops.append({"op": "mutate", "target": o1, "mut": "value_node", "arg": {"ref": {"m": b0, "node": "?any"}}})
+        ops.append({"op": "mutate", "target": o2, "mut": rnd.choice(["set_inputs", "add_inputs"]),
+                    "arg": {"pos": [{"m": b0, "node": "?any"}], "kw": []}})
+        ops.append({"op": "mutate", "target": o2, "mut": "add_inputs", "arg": {"pos": [], "kw": [["z", {"m": b0, "node": "?any"}]]}})
+        ops.append({"op": "setval", "m": b0})
+        ops.append({"op": "build", "roots": [o2]})
+        ops.append({"op": "setval", "m": b0})
+        return {"objs": objs, "ops": ops, "tag": f"{style}.{script}"}
+    if script == "livecopy":
+        if rnd.random() < 0.8:
+            for o in objs:
+                if o.get("seed"):
+                    o["seed"] = False
+        ops[b0]["copy"] = False
+        ops.append({"op": "build", "roots": roots, "via": rnd.choice(["gb", "gb", "gb", "model"]), "copy": True})
+        ops.append({"op": "setval", "m": b0})
+        ops.append({"op": "setval", "m": b0 + 1})
+        ops.append({"op": "mutate", "target": {"m": b0, "node": "?any"}, "mut": "?any", "arg": None})
+        ops.append({"op": "pop", "m": b0})
+        ops.append({"op": "build", "roots": {"from": b0 + 5}})
+        return {"objs": objs, "ops": ops, "tag": f"{style}.{script}"}
+    if script == "reuse":
+        ops[b0]["copy"] = True
+        ops[b0]["via"] = "gb"
+        k = rnd.choice([0, 1, 1])
+        for _ in range(k):
+            ops.append({"op": "build", "roots": roots, "reuse": b0, "copy": True})
+        ops.append({"op": "build", "roots": roots, "reuse": b0, "copy": False})     # empties the builder: last use
+        for j in range(k + 2):
+            ops.append({"op": "setval", "m": b0 + j})
+        return {"objs": objs, "ops": ops, "tag": f"{style}.{script}"}
     if style == "copy" and ops[-1]["copy"]:
         ops.append({"op": "build", "roots": roots, "via": "gb"})            # the originals stay usable
         ops.append({"op": "setval", "m": b0})
@@ -572,14 +644,32 @@ def gen_prog(rnd, style, size):
     return {"objs": objs, "ops": ops, "tag": f"{style}.{script}"}
 
 
-STYLES = ["plain", "unnamed", "seeded", "dup", "cycle", "groups", "copy", "premut"]
-MIN_PER_STYLE = {"quick": 20, "thorough": 250}
+STYLES = ["plain", "unnamed", "seeded", "dup", "cycle", "groups", "copy", "premut", "foreign", "livecopy", "reuse"]
+MIN_PER_STYLE = {"quick": 16, "thorough": 180}
 
 
 def concretise(run, op, rnd):
     """fill the '?any' placeholders (targets inside a built model, mutator names) from the live objects"""
     L = kit.lsl()
     op = json.loads(json.dumps(op))
+    if op["op"] == "mutate":
+        for r in _arg_refs(op):
+            if isinstance(r, dict) and str(r.get("node", "")).startswith("?"):
+                res = run.results.get(r["m"])
+                if res is None or isinstance(res, tuple) or not len(res.nodes):
+                    return None
+                want = r["node"]
+                names = sorted(res.nodes)
+                if want == "?novar":
+                    c = [n for n in names if res.nodes[n].var is None and not n.startswith("_model")] or \
+                        [n for n in names if not n.startswith("_model")]
+                elif want == "?dist":
+                    c = [n for n in names if isinstance(res.nodes[n], L.Dist)]
+                else:
+                    c = [n for n in names if not n.startswith("_model")]
+                if not c:
+                    return None
+                r["node"] = rnd.choice(c)
     if op["op"] == "mutate" and isinstance(op["target"], dict):
         r = run.results.get(op["target"]["m"])
         if r is None:
@@ -620,6 +710,15 @@ def concretise(run, op, rnd):
     return op
 
 
+def _arg_refs(op):
+    a = op.get("arg")
+    if not isinstance(a, dict):
+        return []
+    if "ref" in a:
+        return [a["ref"]]
+    return list(a.get("pos", [])) + [r for _, r in a.get("kw", [])]
+
+
 def run_case(prog, rnd):
     """run with '?any' placeholders resolved on the fly; ops whose handles do not exist are dropped"""
     run = Run(prog)
@@ -632,6 +731,12 @@ def run_case(prog, rnd):
             need.append(op["roots"]["from"])
         if isinstance(op.get("target"), dict):
             need.append(op["target"]["m"])
+        for r in _arg_refs(op):
+            if isinstance(r, dict):
+                need.append(r["m"])
+        if op.get("reuse") is not None and op["reuse"] not in run.builders:
+            ops_done.append(None)
+            continue
         if any(h not in run.results for h in need):
             ops_done.append(None)
             continue
@@ -705,11 +810,19 @@ def generate(ctx):
                     ctx.hist("build.copy=True")
                 if isinstance(s["op"]["roots"], dict):
                     ctx.hist("build.rebuild_from_popped_or_copied")
+                if s["op"].get("reuse") is not None:
+                    ctx.hist("build.same_builder_again")
+                if s["op"].get("copy") and any(c["snaps"][s["pre"]]["nodes"][i]["inmodel"] for i in s["rn"] + [c["snaps"][s["pre"]]["vars"][v]["value"] for v in s["rv"]]):
+                    ctx.hist("build.copy=True_from_live_model." + ("ok" if s["ok"] else "rejected"))
                 if s["ok"] and any(n["name"].endswith("_seed") and n["name"].startswith("_model_") for n in c["snaps"][s["post"]]["nodes"]):
                     ctx.hist("build.with_seed_nodes")
             elif k == "mutate":
                 ctx.hist("mutate." + ("frozen" if s["frozen_target"] else "free") + "." + ("rejected" if not s["ok"] else "applied"))
                 ctx.hist("mutator=" + s["op"]["mut"])
+                if s.get("arg_frozen"):
+                    ctx.hist("mutate.argument_in_live_model." + s["op"]["mut"] + "." + ("rejected" if not s["ok"] else "accepted"))
+                if s.get("arg_in_model"):
+                    ctx.hist("mutate.inputs_from_live_model." + s["op"]["mut"])
             else:
                 ctx.hist(k)
         seen.add(json.dumps(c["prog"], sort_keys=True))
@@ -848,7 +961,8 @@ def step_lit(c, s, wname):
             nold = len(c["snaps"][s["pre"]]["nodes"])
             wit = wit if all(i < nold for i in wit) else []
             o = f"(ORejected {post} {lst(natlit(i) for i in wit)})"
-        return f"SBuild {blit(bool(op.get('copy')))} {pre} {rn} {rv} {o}"
+        grow = op.get("via") == "model" and op.get("reuse") is None
+        return f"SBuild {blit(bool(op.get('copy')))} {blit(grow)} {pre} {rn} {rv} {o}"
     if k == "pop" and s["ok"]:
         return (f"SPop {pre} {lst(natlit(i) for i in s['mnodes'])} {lst(natlit(i) for i in s['mvars'])} {post} "
                 f"{lst(strlit(x) for x in s['keys'])} {lst(strlit(x) for x in s['vkeys'])}")
@@ -863,6 +977,10 @@ def step_lit(c, s, wname):
                  lst(f"({strlit(kw)}, {natlit(i)})" for kw, i in a["kw"]) + ")"
         elif m == "needs_seed" and not s["isvar"]:
             mu = f"(MNeedsSeed {blit(op['arg'])})"
+        elif m == "value_node" and "arg_id" in s:
+            mu = f"(MValueNode {natlit(s['arg_id'])})"
+        elif m == "dist_node" and "arg_id" in s:
+            mu = f"(MDistNode {natlit(s['arg_id'])})"
         else:
             mu = "MOther"
         return f"SMutate {pre} {t} {mu} {blit(not s['ok'])} {post}"
@@ -947,6 +1065,21 @@ def oracle(c):
         if k == "build":
             cl, clv = closure_of(pre, s["rn"], s["rv"])
             nold = len(pre["nodes"])
+            if "gb_before" in s and "gb_after" in s:
+                if op.get("reuse") is not None and s["gb_before"] != [s["rn"], s["rv"]]:
+                    extra = [post["nodes"][i]["name"] for i in s["gb_before"][0] if i not in s["rn"]]
+                    return (f"{where}: the graph builder no longer holds what the user added (an earlier build_model(copy=True) "
+                            f"changed it): extra nodes {extra}")
+                if op.get("copy") and s["gb_after"] != s["gb_before"]:
+                    extra = [nm for i, nm in zip(s["gb_after"][0], s["gb_after_names"]) if i not in s["gb_before"][0]]
+                    return f"{where}: build_model(copy=True) changed the contents of the graph builder: extra nodes {extra}"
+                if s["ok"] and not op.get("copy") and s["gb_after"] != [[], []]:
+                    return f"{where}: build_model() left nodes in the graph builder"
+            if op.get("reuse") is not None and not s["ok"]:
+                first = built.get(("opidx", op["reuse"]))
+                if first is not None:
+                    return (f"{where}: a second build from the same graph builder (after build_model(copy=True)) was rejected: "
+                            f"{s['err']}: {s.get('msg')}")
             if s["ok"]:
                 mn = s["mnodes"]
                 names = [post["nodes"][i]["name"] for i in mn]
@@ -969,8 +1102,12 @@ def oracle(c):
                 else:
                     if len(mn) != len([i for i in cl if not _stale_seed(pre, i)]) + 3 + sum(1 for i in cl if pre["nodes"][i]["seed"] and not _stale_seed(pre, i)):
                         return f"{where}: copy=True model has {len(mn)} nodes, closure has {len(cl)} (+3 model nodes + seeds)"
-                    if any(post["nodes"][i]["inmodel"] for i in cl):
-                        return f"{where}: copy=True put an original node into the model"
+                    if any(post["nodes"][i]["inmodel"] != pre["nodes"][i]["inmodel"] or post["nodes"][i]["mid"] != pre["nodes"][i]["mid"] for i in cl):
+                        return f"{where}: copy=True changed the model membership of an original node"
+                    for i in cl:
+                        if pre["nodes"][i]["inmodel"] and post["nodes"][i] != pre["nodes"][i]:
+                            return (f"{where}: build_model(copy=True) changed node {pre['nodes'][i]['name']!r} of a live model: "
+                                    f"{_ndiff(pre['nodes'][i], post['nodes'][i])}")
                     if any(i < nold for i in mn):
                         return f"{where}: copy=True model shares a node with the originals"
                 # closed under inputs, outputs = inverse of inputs
@@ -1010,6 +1147,12 @@ def oracle(c):
                         a, b = strip_model_part(src), strip_model_part(summ)
                         if _canon(a) != _canon(b):
                             return f"{where}: the model rebuilt from the popped / copied nodes differs from the original: {_diff(a, b)}"
+                if op.get("reuse") is not None:
+                    first = built.get(("opidx", op["reuse"]))
+                    if first is not None:
+                        a, b = strip_model_part(first), strip_model_part(summ)
+                        if _canon(a) != _canon(b):
+                            return f"{where}: the second build from the same graph builder differs from the first: {_diff(a, b)}"
                 built[c["steps"].index(s)] = summ
                 built[("opidx", _opindex(c, s))] = summ
             else:
@@ -1075,6 +1218,19 @@ def oracle(c):
             elif not s["ok"] and s.get("err") == "inmodel" and op["mut"] in ("name", "needs_seed", "set_inputs", "add_inputs"):
                 # e.g. renaming a free var whose value node ... cannot happen for free objects
                 return f"{where}: mutation {op['mut']!r} of a free object was rejected as frozen: {s.get('msg')}"
+            if s.get("arg_frozen"):
+                if s["ok"]:
+                    return (f"{where}: {op['mut']} setter accepted a node that belongs to a model as its argument: the frozen node "
+                            f"{pre['nodes'][s['arg_id']]['name']!r} became part of another variable")
+                if pre != post:
+                    return f"{where}: rejected {op['mut']} assignment changed the objects: {_wdiff(pre, post)}"
+            for i, n in enumerate(pre["nodes"]):
+                if n["inmodel"] and post["nodes"][i] != n:
+                    return (f"{where}: mutation {op['mut']!r} of another object changed node {n['name']!r} that belongs to a model: "
+                            f"{_ndiff(n, post['nodes'][i])}")
+            for v, pv in enumerate(pre["vars"]):
+                if pv["inmodel"] and post["vars"][v] != pv:
+                    return f"{where}: mutation {op['mut']!r} of another object changed variable {pv['name']!r} that belongs to a model"
             if s.get("live_touched"):
                 return f"{where}: live model(s) {s['live_touched']} changed by a mutation of another object"
         elif k == "setval":
